@@ -62,8 +62,8 @@ def nzLimbOne : Res Nat := .ok 1
 def nzLimbMax : Res Nat := .ok WMAX
 /-- hand-written `Default for NonZero<T>`: `Self(T::ONE)` -/
 def nzLimbDefault : Res Nat := .ok 1
-/-- DERIVED `Default for Odd<T>`: `Odd(T::default())`, and `Limb::default() = Limb(0)` -/
-def oddLimbDefault : Res Nat := .ok 0
+/-- `Default for Odd<T>` (`T: num_traits::One`): `Self(T::one())`, and `Limb::one() = Limb::ONE` -/
+def oddLimbDefault : Res Nat := .ok 1
 
 /-- big-endian / little-endian value of a byte string (C16) -/
 def beVal (bs : List Nat) : Nat := bs.foldl (fun acc b => acc * 256 + b % 256) 0
@@ -99,10 +99,10 @@ def nzMax (n : Nat) : Res (List Nat) := .ok (umax n)
 def intMaxLimbs (n : Nat) : List Nat := toLimbs n (B ^ n / 2 - 1)
 def nzIntMax (n : Nat) : Res (List Nat) := .ok (intMaxLimbs n)
 def nzDefault (n : Nat) : Res (List Nat) := .ok (uone n)
-/-- DERIVED `Default`: `Odd(Uint::default())` = `Odd(Uint::ZERO)` (same for `Int`) -/
-def oddDefault (n : Nat) : Res (List Nat) := .ok (uzero n)
-/-- DERIVED `Default`: `Odd(BoxedUint::default())` = `Odd(BoxedUint::zero())`, one zero limb -/
-def oddBoxedDefault : Res (List Nat) := .ok [0]
+/-- `Default for Odd<Uint>` / `Odd<Int>`: `Self(T::one())` = `Uint::ONE` / `Int::ONE` -/
+def oddDefault (n : Nat) : Res (List Nat) := .ok (uone n)
+/-- `Default for Odd<BoxedUint>`: `Self(BoxedUint::one())`, the one-limb value 1 -/
+def oddBoxedDefault : Res (List Nat) := .ok [1]
 
 /-- `Uint::from_be_slice` / `from_le_slice` on exactly `8n` bytes (C16) -/
 def uintFromBeBytes (n : Nat) (bs : List Nat) : List Nat := toLimbs n (beVal bs)
@@ -111,10 +111,8 @@ def uintFromLeBytes (n : Nat) (bs : List Nat) : List Nat := toLimbs n (leVal bs)
 def nzFromBeBytes (n : Nat) (bs : List Nat) : Res (List Nat) := nzNew (uintFromBeBytes n bs)
 def nzFromLeBytes (n : Nat) (bs : List Nat) : Res (List Nat) := nzNew (uintFromLeBytes n bs)
 def nzFromBeByteArray (n : Nat) (bs : List Nat) : Res (List Nat) := nzNew (uintFromBeBytes n bs)
-/-- AS WRITTEN (src/non_zero.rs:193-195): `Self::new(T::from_be_byte_array(bytes))` -/
-def nzFromLeByteArray (n : Nat) (bs : List Nat) : Res (List Nat) := nzNew (uintFromBeBytes n bs)
-/-- what the name and the property demand -/
-def nzFromLeByteArraySpec (n : Nat) (bs : List Nat) : Res (List Nat) := nzNew (uintFromLeBytes n bs)
+/-- `NonZero::from_le_byte_array` (src/non_zero.rs:193-195): `Self::new(T::from_le_byte_array(bytes))` -/
+def nzFromLeByteArray (n : Nat) (bs : List Nat) : Res (List Nat) := nzNew (uintFromLeBytes n bs)
 
 /-- one hexadecimal character (upper or lower case), by code point -/
 def hexNibble? (c : Nat) : Option Nat :=
@@ -146,10 +144,8 @@ def assertOdd : Res (List Nat) → Res (List Nat)
   | .ok a => if isOdd a = WMAX then .ok a else .panic
   | r => r
 def oddFromBeHex (n : Nat) (cs : List Nat) : Res (List Nat) := assertOdd (uintFromBeHex n cs)
-/-- AS WRITTEN (src/odd.rs:73-77): `let uint = Uint::<LIMBS>::from_be_hex(hex);` -/
-def oddFromLeHex (n : Nat) (cs : List Nat) : Res (List Nat) := assertOdd (uintFromBeHex n cs)
-/-- what the name, the doc comment and the property demand -/
-def oddFromLeHexSpec (n : Nat) (cs : List Nat) : Res (List Nat) := assertOdd (uintFromLeHex n cs)
+/-- `Odd::<Uint>::from_le_hex` (src/odd.rs:73-77): `let uint = Uint::<LIMBS>::from_le_hex(hex);` -/
+def oddFromLeHex (n : Nat) (cs : List Nat) : Res (List Nat) := assertOdd (uintFromLeHex n cs)
 
 /-- `conditional_select` of `NonZero` / `Odd` over `Uint` / `Int`: limb-wise `Word::conditional_select` -/
 def wrapSelect (a b : List Nat) (c : Nat) : Res (List Nat) := .ok (uselect a b c)
